@@ -8,7 +8,7 @@ from props.c20 import _same_arrays
 ID = "C18"
 HEAP_SUMMARY = True      # end every program with the reference-level observation (BB.Model.Heap vs id() walk)
 LEAN_MODULE = "BB.Properties.C18"
-QUICK_N = 120
+QUICK_N = 240
 THOROUGH_N = 2500
 RULE = ("consistent sequences of 1-4 positions, each an element or (45%) a subsequence of 1-3 elements, 1-3 channels with "
         "int/str ids in per-element order, blueprint and raw-array channels, flags, delays, filter compensations and "
